@@ -150,6 +150,7 @@ bool Hist::opRoundTrip(bool cont) {
             log.viol("C01", "content/" + key, all + " | shape " + shapeSig(prev)); }
         if (!external) checkC05(b, "reload");
     } else bump(gaps ? "c01_skipped_gaps" : "c01_skipped_wild");
+    if (cont && fileOffSpec) offSpec = true;      // the object continues from a file whose meaning the documentation does not define
     if (cont) { obj = std::move(ld); prev = take(*obj); callerFrames.clear(); callerFrameTarget.clear(); Outcome none; log.ev("continue_on_loaded", shapeSig(prev), none); bump("op:continue_on_loaded"); }
     if (!o.dumpFinal) unlink(path.c_str());
     return true;
